@@ -13,13 +13,14 @@ type agg struct {
 	runs, runsB                                   int
 	requests, ticks, switches, mapDec, maxTicks   int64
 	faults, probes, classes, cells                map[string]int64
-	schedules, planDigests, opVariants            map[string]bool
+	schedules, planDigests                        map[string]bool
+	opVariants                                    map[uint64]struct{}
 	sitesHit, sitesTotal, workers                 int
 }
 
 func newAgg() *agg {
 	return &agg{faults: map[string]int64{}, probes: map[string]int64{}, classes: map[string]int64{}, cells: map[string]int64{},
-		schedules: map[string]bool{}, planDigests: map[string]bool{}, opVariants: map[string]bool{}}
+		schedules: map[string]bool{}, planDigests: map[string]bool{}, opVariants: map[uint64]struct{}{}}
 }
 
 func (g *agg) absorb(a, b *runOutcome) {
@@ -52,7 +53,7 @@ func (g *agg) absorb(a, b *runOutcome) {
 		// (non-sorted map order, a fault, an interleaving, a repetition) and produced responses
 		if len(r.Stats.Faults) > 0 || r.Stats.Switches > 0 {
 			for _, d := range r.OpDigests {
-				g.opVariants[Digest(r.PlanDigest+"/"+d)] = true
+				g.opVariants[hash64(r.PlanDigest+"/"+d)] = struct{}{}
 			}
 		}
 	}
@@ -157,4 +158,13 @@ func (c *checker) writeEvidence() {
 	if err := os.WriteFile(filepath.Join(dir, c.prop+".json"), bb, 0o644); err != nil {
 		infra("write evidence: %v", err)
 	}
+}
+
+func hash64(s string) uint64 {
+	var h uint64 = 0xcbf29ce484222325
+	for i := 0; i < len(s); i++ {
+		h ^= uint64(s[i])
+		h *= 0x100000001b3
+	}
+	return h
 }
